@@ -373,7 +373,14 @@ func TestProp_HTML(t *testing.T) {
 				k.names = [][]byte{l.Text()}
 				if tt == html.EndTagToken {
 					r.look = true
-					k.names = [][]byte{tagNameOf(l.Text())} // only the name of an end tag is case-folded, not what follows it
+					// only the name of an end tag is case-folded: not what follows it, nor a template region glued to it
+					name := tagNameOf(l.Text())
+					if d[0] != "" {
+						if j := bytes.Index(name, []byte(d[0])); j >= 0 {
+							name = name[:j]
+						}
+					}
+					k.names = [][]byte{name}
 				}
 			case html.AttributeToken:
 				k.subs = [][]byte{l.AttrKey(), l.AttrVal()}
